@@ -1,4 +1,5 @@
 (* C15 - Validation errors identify the kind of failure. *)
+From B39 Require Import Proofs.Calls.
 From B39 Require Import Lib.Base Lib.Sha256 Lib.Nfkd Model.GenTypes Model.Model Spec.Bip39Spec.
 From B39 Require Import Proofs.Tables Proofs.LibContract Proofs.Validate Proofs.Sound Proofs.Api.
 
@@ -36,6 +37,11 @@ Proof. exact accepted_is_valid. Qed.
 Example C15_distinct : Some ErrWordLen <> Some ErrChecksumIncorrect /\ (forall t i, Some (ErrUnknownWord t i) <> Some ErrWordLen)
   /\ (forall t i, Some (ErrUnknownWord t i) <> Some ErrChecksumIncorrect) /\ (forall t i, Some (ErrUnknownWord t i) <> None).
 Proof. repeat split; intros; discriminate. Qed.
+
+(* the functions this property is about, and every package function they reach, call only what the model
+   accounts for (closed world of callees, computed on coq/Gen/Calls.v, regenerated from the source every run) *)
+Theorem C15_callees : reach_ok "CheckMnemonic" = true /\ reach_ok "IsMnemonicValid" = true.
+Proof. exact calls_validator. Qed.
 
 Print Assumptions C15_classification.
 Print Assumptions C15_count.
